@@ -1,11 +1,27 @@
 (* C12 — with caching on, short forced mates are found and avoidable ones avoided.
    PARTIAL.  What is proved here, for an arbitrary game and with the cache ON, for ANY cache
-   content that satisfies a simple invariant which the search itself maintains (so: an empty
+   content that satisfies an invariant which the search itself maintains (so: an empty
    cache, a cache filled by earlier iterations, by earlier searches of the same position at other
    depths, ...): a completed iteration of any depth >= 1 chooses a MATING move whenever one
-   exists (clause 1 of the property).  The invariant: cached scores lie strictly between the
-   two "mate at ply 1" values except at the root's own key, and only positions that have a legal
-   move are cached.  Key collisions are excluded by hypothesis (key injective on positions).
+   exists (clause 1 of the property).  The invariant (`cache_ok`, defined in
+   proofs/SearchMateProofs.v): only positions that have a legal move are cached, cached scores are
+   i16 values, and EITHER all cached scores lie strictly between the two "mate at ply 1" values
+   (-32767 and 32767) OR the root's own entry names a mating move as its best move.
+   Why it has this two-mode shape (counterexamples closed by vm_compute in
+   proofs/SearchMateProofs.v, module MateCex): no bound on the cached SCORES alone is maintained.
+   After the root has found a mate in one (alpha = 32767 = beta) the remaining root moves are
+   searched with the window (-32768, -32767); their children get the degenerate window
+   (32767, 32767), the grandchildren (-32767, -32767), and cut-offs there leave UNSOUND bound
+   entries such as (Lower, 32767) or (Lower/Upper, -32767) for positions that are neither won nor
+   lost (`unsound_lower_bound_stored`: from the EMPTY cache, depth 3).  A later iteration that
+   searched a non-mating root move before the mating one could hit such an entry and give that move
+   the mate score (`chaining_without_tt_move_first_refuted`).  What protects later iterations is
+   that the root entry written at the end of the iteration names the mating move and the move
+   orderer puts the cached move first; this needs the two extra hypotheses below (move equality is
+   real equality; capture scores are small, so that only the cached move gets SCORE_TT) — both
+   hold for the chess instance.  Scores at the root's own key cannot be excepted from the bound
+   either, since the root position may recur inside the tree (`root_key_exception_refuted`,
+   `root_key_max_refuted`).  Key collisions are excluded by hypothesis (key injective on positions).
    Clauses 2 and 3 (keeping a forced mate in two; never allowing an avoidable mate in one) are NOT
    proved with the cache on: scores are stored relative to the ply at which they were found and
    are reused at other plies, which blurs mate DISTANCES, so two losing moves can in principle swap
@@ -35,18 +51,15 @@ Section C12.
   Variable clock : nat -> N.
   Hypothesis eval_range : forall p, -32000 < evalf p < 32000.
   Hypothesis key_inj : forall p q, key p = key q -> p = q.          (* NoCollision *)
+  Hypothesis mv_eqb_spec : forall m x, mv_eqb m x = true <-> m = x.  (* move equality is equality *)
+  Hypothesis cap_small : forall m, (cap_score m < 2 ^ 32)%N.        (* only the cached move scores SCORE_TT *)
 
   Let start := alpha_beta_start pos mv moves legal make in_check evalf is_cap is_promo cap_score mv_eqb key
                        halfmove repeated default_mv no_limits clock (fun _ => false) true.
 
-  Definition has_legal (p : pos) : Prop := exists m, In m (moves p) /\ legal p m = true.
-  Definition mated (p : pos) : Prop := in_check p = true /\ ~ has_legal p.
-  Definition mates (p : pos) (m : mv) : Prop := In m (moves p) /\ legal p m = true /\ mated (make p m).
-
-  (* the cache invariant, relative to the root position *)
-  Definition cache_ok (root : pos) (s : St mv) : Prop :=
-    forall q e, PositiveMap.find (kpos (key q)) (tt mv s) = Some e ->
-      has_legal q /\ (q <> root -> -32766 <= e_score mv e <= 32766) /\ -32767 <= e_score mv e <= 32767.
+  (* has_legal, mated, mates, cache_ok: see proofs/SearchMateProofs.v (Section Defs) *)
+  Local Notation mates := (SearchMateProofs.mates pos mv moves legal make in_check).
+  Local Notation cache_ok := (SearchMateProofs.cache_ok pos mv moves legal make in_check key).
 
   (* clause 1: a completed iteration chooses a mating move whenever one exists; and the invariant
      is re-established, so the statement applies again to the next iteration / the next search *)
@@ -58,11 +71,11 @@ Section C12.
                /\ best_score mv (start s root d) = Some 32767)
     /\ cache_ok root (start s root d) /\ running mv (start s root d) = true.
   Proof. exact (mate_in_one_found pos mv moves legal make in_check evalf is_cap is_promo cap_score mv_eqb key
-                                  halfmove repeated default_mv clock eval_range key_inj). Qed.
+                                  halfmove repeated default_mv clock eval_range key_inj mv_eqb_spec cap_small). Qed.
 
   (* the invariant holds for the empty cache *)
   Theorem C12_empty_cache_ok : forall root, cache_ok root (init_st mv).
-  Proof. exact (empty_cache_ok pos mv moves legal key). Qed.
+  Proof. exact (empty_cache_ok pos mv moves legal make in_check key). Qed.
 End C12.
 
 Print Assumptions C12_mate_in_one.
